@@ -78,7 +78,11 @@ def encode(classes, cart):
         else:
             Z = A.of(cart[2])
             s2 = T * T - (X * X + Y * Y + Z * Z)
-            out.append(LIB.copysign(LIB.sqrt(LIB.absolute(s2)), s2))
+            tau_out = LIB.copysign(LIB.sqrt(LIB.absolute(s2)), s2)
+            out.append(tau_out)
+            if T.sign() != "+":
+                ctx.need("callee contract: result time > 0 (representable with tau)", T.rel(">"))
+            cache[("te", vkey(X), vkey(Y), vkey(Z), vkey(A.of(tau_out)))] = T
     return out
 
 
@@ -150,6 +154,7 @@ def ensure_installed():
         if hasattr(m, "dispatch_map"):
             for sig, (fn, *ret) in m.dispatch_map.items():
                 _patch_closure(fn)
+    install_kernel_stubs()
 
 
 def _patch_closure(fn):
@@ -162,3 +167,68 @@ def _patch_closure(fn):
             continue
         if isinstance(c, types.FunctionType) and c in STUBS:
             cell.cell_contents = STUBS[c]
+
+
+# ------------------------------------------------------------------------------------------------ kernel contracts
+# The tau-keeping boost kernels are contracted callees too (DESIGN 2.1 "kernel contracts at parameter level"):
+#
+#   K_tau(x, y, z, tau, *params)  ==  ( K_t(x, y, z, T, *params)[0:3],  tau )      with  T = t-view of (x, y, z, tau)
+#   and   t-view( K_tau(...) )     ==  K_t(x, y, z, T, *params)[3]                  (interval invariance), if that is > 0
+#
+# under the kernel's own `requires` (KERNELS[...]["requires"]).  Each is proved once on plain variables by a KernelJob
+# (enginea.KernelJob); callers only have to establish the `requires`.
+KERNELS = {
+    ("lorentz", "boost_beta3"): dict(tau="cartesian_tau", t="cartesian_t", params=("betax", "betay", "betaz")),
+    ("lorentz", "boost_p4"): dict(tau="cartesian_tau", t="cartesian_t", params=("energy", "mass", "mass2", "x2", "y2", "z2")),
+}
+KERNEL_ORIG = {}
+NO_KERNEL_STUB = False
+
+
+def kernel_requires(key, params):
+    """the kernel's precondition as formulas over its (symbolic) parameters"""
+    if key == ("lorentz", "boost_beta3"):
+        bx, by, bz = [A.of(p) for p in params]
+        return [("|beta| < 1", (bx * bx + by * by + bz * bz).rel("<", 1))]
+    if key == ("lorentz", "boost_p4"):
+        e, m, m2, x2, y2, z2 = [A.of(p) for p in params]
+        return [("mass > 0", m.rel(">")), ("energy > 0", e.rel(">")), ("mass2 == mass^2", m2.rel("==", m * m)),
+                ("energy^2 == mass^2 + |p|^2", (e * e).rel("==", m * m + x2 * x2 + y2 * y2 + z2 * z2))]
+    return []
+
+
+def _make_kernel_stub(key, spec, mod):
+    ftau = getattr(mod, spec["tau"])
+    ft = getattr(mod, spec["t"])
+    KERNEL_ORIG[key] = (ftau, ft)
+
+    def kstub(lib, x1, y1, z1, tau1, *params):
+        if lib is not LIB or S.CTX is None or NO_KERNEL_STUB:
+            return ftau(lib, x1, y1, z1, tau1, *params)
+        ctx = S.CTX
+        for desc, f in kernel_requires(key, params):
+            if f != S.TRUE:
+                ctx.need(f"kernel contract {mod.__name__}.{spec['tau']} requires {desc}", f)
+        x1, y1, z1, tau1 = A.of(x1), A.of(y1), A.of(z1), A.of(tau1)
+        T = LIB.sqrt(LIB.maximum(LIB.copysign(tau1 * tau1, tau1) + (x1 * x1 + y1 * y1 + z1 * z1), 0))
+        r = ft(lib, x1, y1, z1, T, *params)
+        from .views import vkey
+        cache = ctx.__dict__.setdefault("viewcache", {})
+        tp = A.of(r[3])
+        if tp.sign() != "+":
+            ctx.need(f"kernel contract {mod.__name__}.{spec['tau']}: boosted time > 0 (result representable with tau)", tp.rel(">"))
+        cache[("te", vkey(A.of(r[0])), vkey(A.of(r[1])), vkey(A.of(r[2])), vkey(tau1))] = tp
+        return (r[0], r[1], r[2], tau1)
+
+    kstub.__name__ = "contract_of_" + spec["tau"]
+    kstub.__wrapped_original__ = ftau
+    return kstub
+
+
+def install_kernel_stubs():
+    import importlib
+    for key, spec in KERNELS.items():
+        mod = importlib.import_module(f"vector._compute.{key[0]}.{key[1]}")
+        if hasattr(getattr(mod, spec["tau"]), "__wrapped_original__"):
+            continue
+        setattr(mod, spec["tau"], _make_kernel_stub(key, spec, mod))
